@@ -740,7 +740,12 @@ func (s *Server) pushClient() {
 	s.log("pushClient:try t%d", data.mTrackedTimeSum)
 	var err error
 	if s.syncMutations {
-		err = s.pushUpdateMutations(s.tracer.DataQueue())
+		// memorize what has actually been sent
+		muts := s.tracer.DataQueue()
+		err = s.pushUpdateMutations(muts)
+		if len(muts) > 0 {
+			data = &muts[len(muts)-1].data
+		}
 	} else {
 		err = s.pushUpdateLatest(data)
 	}
@@ -816,8 +821,12 @@ func (s *Server) newMsgMutation(
 	r := MsgSrvMutation{Result: mut}
 	// calculate diff
 	if s.syncMutations {
-		r.Mutations = calcUpdateMutations(s.syncSchema, s.tracer.DataQueue(),
-			s.lastPushData)
+		// memorize what has actually been sent
+		muts := s.tracer.DataQueue()
+		r.Mutations = calcUpdateMutations(s.syncSchema, muts, s.lastPushData)
+		if len(muts) > 0 {
+			data = &muts[len(muts)-1].data
+		}
 	} else {
 		r.Update = calcUpdate(s.syncSchema, data, s.lastPushData,
 			s.syncShallowClocks)
@@ -1120,6 +1129,10 @@ func (s *Server) RemoteSync(
 
 	// the client holds this snapshot now, diff the next updates against it
 	s.storeLastPush(data)
+	if s.syncMutations {
+		// and drop the per-mutation snapshots it covers
+		s.tracer.DataQueue()
+	}
 
 	return nil
 }
